@@ -21,7 +21,7 @@ import torch
 
 from .. import bmachine as bm
 from .. import seams, stubs
-from ..core import EventLog, SimBudgetExceeded, Streams, Violation, fx, tdig, xf
+from ..core import SkipCase, EventLog, SimBudgetExceeded, Streams, Violation, fx, tdig, xf
 
 PROP = "C14"
 RUNS = {"quick": 1000, "thorough": 40000}
@@ -193,7 +193,7 @@ def run_case(case, keep_log=False):
         ts = torch.tensor([xf(t) for t in case["ts"]], dtype=tdt)
         ts_list = [float(t) for t in ts]
         if any(b <= a for a, b in zip(ts_list[:-1], ts_list[1:])):
-            raise Violation("harness_bad_case", None, None)
+            raise SkipCase()
         t0, T = ts_list[0], ts_list[-1]
         span = T - t0
         if case["bm"] == "stub":
@@ -414,6 +414,8 @@ def run_case(case, keep_log=False):
             fired = dict(plan.fired)
     except Diverged:
         pass
+    except SkipCase:
+        probes["skipped_degenerate_case"] = 1
     except Violation as v:
         violation = v.to_json()
     stats = {"faults": dict(fired, adversarial_error_values=len(case["script"]) if conf == "adv" else 0,
